@@ -140,7 +140,7 @@ def theorem_names(props_src: str):
     return names
 
 
-def lean_obligations(prop: str, extra_targets=()):
+def lean_obligations(prop: str, extra_targets=(), recheck=False):
     """Build what Props/<prop>.lean imports and the driver, then re-elaborate the Props file.
 
     Returns dict(obligations=[{name, axioms, discharged, why}], build_ok, driver_ok, log, forbidden=[...])."""
@@ -186,6 +186,25 @@ def lean_obligations(prop: str, extra_targets=()):
             o["discharged"] = False
             o["why"] = "forbidden token in sources: " + res["forbidden"][0]
     res["checker_rc"] = rc3
+    if recheck:
+        # thorough tier: the toolchain's independent re-checker replays every declaration of the property module and of
+        # every Pyc module it (transitively) imports from the compiled .olean files
+        mods, todo = [], [f"Pyc.Props.{prop}"]
+        while todo:
+            m = todo.pop()
+            if m in mods:
+                continue
+            mods.append(m)
+            f = LEAN / (m.replace(".", "/") + ".lean")
+            if f.exists():
+                todo += re.findall(r"^import\s+(Pyc\.\S+)", f.read_text(), flags=re.M)
+        rc4, out4 = run_cmd(["lake", "env", "leanchecker", *sorted(mods)], cwd=str(LEAN))
+        res["leanchecker"] = {"modules": len(mods), "rc": rc4}
+        if rc4 != 0:
+            res["log"] += "\nleanchecker: " + out4[-3000:]
+            for o in res["obligations"]:
+                o["discharged"] = False
+                o["why"] = "leanchecker rejected the compiled modules"
     return res
 
 
@@ -307,7 +326,7 @@ class Ctx:
             "coverage": {
                 "obligations": len(obs), "discharged": len(obs) - len(broken),
                 "checker_cmd": f"cd lean && lake build Pyc.Props.{self.prop} && lake env lean Pyc/Props/{self.prop}.lean"
-                               + (" && lake env leanchecker" if self.thorough else ""),
+                               + (" && lake env leanchecker <the module and its Pyc imports>" if self.thorough else ""),
                 "trusted_base": ["Lean 4.33.0 kernel"] + [f"axiom {a}" for a in axioms] + [
                     "correspondence harness (model driver vs /repo in-process)"] + self.extra.pop("trusted", []),
                 "theorems": [{"name": o["name"], "axioms": o["axioms"], "discharged": o["discharged"]} for o in obs],
@@ -315,7 +334,8 @@ class Ctx:
                 "samples": self.samples[:8], "traces_validated_against_impl": self.traces,
                 "disagreements_checked": len(self.diffs), "histogram": self.hist,
                 "skipped_outside_hypotheses": self.skipped,
-                "known_findings_reproduced": sorted(self.known_hits), **self.extra,
+                "known_findings_reproduced": sorted(self.known_hits),
+                **({"leanchecker": lean["leanchecker"]} if lean.get("leanchecker") else {}), **self.extra,
             },
             "assumptions": self.assumptions, "wall_s": round(wall, 2), "violations": len(self.violations),
         }
